@@ -209,7 +209,28 @@ def run(ck):
                     "binary": bytes(rng.getrandbits(8) for _ in range(rng.randint(1, 600))),
                     "big": (b"%d\n" % rng.randint(0, 9)) * rng.randint(1000, 200000)}[kind]
             files[n] = base64.b64encode(data).decode()
-        rts.append({"id": i, "files": files, "tree": True})
+        rts.append({"id": i, "files": files, "tree": True, "writes": 4, "kind": "random"})
+    # near-ties: file sets on which an ordering that is not a total order on byte strings (case folding, Unicode normalisation,
+    # separator-insensitive or length-only comparison) leaves the entry order to chance. Archived many times, in two processes.
+    e_nfc, e_nfd = "caf\u00e9.go", "cafe\u0301.go"
+    near = [
+        ("case_fold", ["core/parser.go", "core/Parser.go"], True),
+        ("case_fold_dirs", ["Core/parser.go", "core/parser.go", "CORE/parser.go", "core/PARSER.go", "go.mod"], True),
+        ("case_fold_many", ["pkg/%s.go" % n for n in ("abc", "Abc", "aBc", "abC", "ABc", "AbC", "aBC", "ABC")], True),
+        ("unicode_normalisation", ["pkg/" + e_nfc, "pkg/" + e_nfd, "pkg/cafe.go"], True),
+        ("unicode_case", ["pkg/\u00e4.go", "pkg/\u00c4.go", "pkg/\u1e9e.go", "pkg/\u00df.go", "pkg/ss.go", "pkg/SS.go"], True),
+        ("prefix", ["a", "a/b", "a/b/c", "a.go", "a/b.go"], False),
+        ("dash_vs_slash", ["a-b.go", "a/b.go", "a.b.go", "a b.go", "a_b.go", "a+b.go"], True),
+        ("same_length", ["ab.go", "ba.go", "aa.go", "bb.go", "Ab.go", "aB.go"], True),
+        ("trailing", ["x.go", "x.go ", "x.go.", "x.GO", "X.go"], False),
+        ("kelvin_and_dotless", ["k.go", "K.go", "\u212a.go", "i.go", "I.go", "\u0131.go", "\u0130.go"], True),
+    ]
+    nid = 1000
+    for label, names_, tree in near:
+        for rep_ in range(1 if quick else 3):
+            files = {n: base64.b64encode(("// %s #%d\npackage p\n" % (label, k)).encode()).decode() for k, n in enumerate(names_)}
+            rts.append({"id": nid, "files": files, "tree": tree, "writes": 32 if quick else 96, "kind": label})
+            nid += 1
 
     def strip(s):
         return {k: v for k, v in s.items() if k in ("id", "rows", "via", "requests", "common", "full")}
@@ -263,7 +284,8 @@ def run(ck):
                       "(B) every entry name of the grammar (x size class) is written into root r's archive: its content may only ever be returned "
                       "under r/<where the name leads> and never when the name climbs out of the root or the entry is over the cap; searched for "
                       "with code_search over the whole tree and read at every candidate path. (C) hand-built hostile archives. (D) WriteArchive / "
-                      "ArchiveDir / ArchiveFS twice byte-equal, ReadArchive returns the same files. Non-trivial = request that is not a canonical "
+                      "ArchiveDir / ArchiveFS of random and of near-tie file sets (case-fold-equal paths, Unicode normalisation variants, prefixes, "
+                      "separator look-alikes) archived 32+ times from differently filled maps in two processes: all bytes equal; ReadArchive returns the same files. Non-trivial = request that is not a canonical "
                       "recorded key, or entry that is not a plain good name.")
     ck.assumptions += ["archive alphabet: roots r and s; names a, b, 'C:', '...', 'a\\b'; every line of every entry is 'MK<entry>x<line> payload'",
                        "documented per-file cap 8 MiB (sourcefs.maxArchiveFileBytes); 'oversized' also means a declared %d MiB entry of zeros" % (bomb // MIB),
@@ -446,10 +468,23 @@ def run(ck):
             ck.sample({"archive": sc["label"], "open_err": res.get("open_err", ""), "files": res["files"], "roots": res["roots"],
                        "alloc_MiB": round(res["alloc_bytes"] / MIB, 1), "declared_MiB": res.get("declared", 0) // MIB})
     # ---------------------------------------------------------------- judge D
+    # a second process archives the same file sets: the bytes must not depend on the process either
+    o2 = core.harness(binary, "sourcepath", {"scenarios": [], "common": [], "roundtrips": rts}, timeout=900)
+    second = {x["id"]: x for x in o2.get("roundtrips") or []}
+    kind_of = {x["id"]: x["kind"] for x in rts}
+    for rt in rtres:
+        other = second.get(rt["id"])
+        if other is None:
+            raise core.Broken("second process returned no result for round trip %d" % rt["id"])
+        rt["problems"] = list(rt["problems"] or []) + ["(second process) " + p for p in other["problems"] or []]
+        for hk, what in (("hash", "WriteArchive"), ("tree_hash", "ArchiveDir")):
+            if rt.get(hk) and other.get(hk) and rt[hk] != other[hk] and not any("differ" in p for p in rt["problems"]):
+                rt["problems"].append("%s of the same files differs between two processes" % what)
+    ck.cov["archive_writes_per_near_tie_set"] = (32 if quick else 96) * 2
     for rt in rtres:
         for p in rt["problems"] or []:
             what = "not_deterministic" if "differ" in p and "content" not in p else "read_back"
-            ck.report({"prop": "RoundTrip", "what": what, "part": "D"}, "archive round trip %d: %s" % (rt["id"], p),
+            ck.report({"prop": "RoundTrip", "what": what, "part": "D", "files": kind_of.get(rt["id"], "")}, "archive round trip %d (%s): %s" % (rt["id"], kind_of.get(rt["id"]), p),
                       {"driver": "sourcepath", "roundtrip": next(x for x in rts if x["id"] == rt["id"])})
     ck.cov["entry_classes"] = classes
     summary = {}
